@@ -17,11 +17,11 @@ from ..ref.swshadow import BufferPool, expected_outputs, encode_actions
 ID = "C18"
 LEVEL = "exploration"
 TECHNIQUE = "model-based stateful testing: Hypothesis-drawn and exhaustively enumerated op histories against a buffer-pool model, byte-level"
-LEVEL_TEXT = ("Exploration of operation histories: every history of up to 4 (quick) / 5 (thorough) operations over a 10-letter alphabet is "
-              "enumerated for pool sizes 0..2, and Hypothesis draws histories of up to 60 operations for pool sizes 0..4; each is run against "
-              "the real switch through its byte-level connection and judged step by step against an independent buffer-pool model. "
-              "The property is about operation histories of a small state machine, so bounded exhaustive enumeration plus random long "
-              "histories is the fitting level; nothing is claimed beyond the explored bounds.")
+LEVEL_TEXT = ("Exploration of operation histories: every history of up to 4 (quick) / 5-6 (thorough) operations over a 10-letter alphabet is "
+              "enumerated for pool sizes 0..2 (quick) / 0..4 (thorough), and Hypothesis draws histories of up to 60 operations for pool "
+              "sizes 0..4; each is run against the real switch through its byte-level connection and judged step by step against an "
+              "independent buffer-pool model. The property is about operation histories of a small state machine, so bounded exhaustive "
+              "enumeration plus random long histories is the fitting level; nothing is claimed beyond the explored bounds.")
 LEVEL_NOTE = ("the reference codec pvf/ref/ctlbytes.py and the model pvf/ref/swshadow.py are trusted; actions are restricted to plain outputs; "
               "a packet-out that uses a buffer carries the stored in_port so that the choice between stored and given in_port is not judged")
 RULE = ("a case is (max_buffers 0..4, initial miss_send_len, list of ops); ops are frame arrival to one of 4 destinations (a miss unless a "
@@ -40,7 +40,7 @@ ASSUMPTIONS = [
 ]
 EXHAUSTIVE_SCOPE = {
   "quick": "all histories of length 1..4 over the 10-op alphabet _ALPHABET, for max_buffers in {0,1,2}, miss_send_len 20",
-  "thorough": "all histories of length 1..6 over the 10-op alphabet _ALPHABET for max_buffers in {1,2}, and length 1..5 for max_buffers in {0,3,4}, miss_send_len 20",
+  "thorough": "all histories of length 1..6 over the 10-op alphabet _ALPHABET for max_buffers 2, and length 1..5 for max_buffers in {0,1,3,4}, miss_send_len 20",
 }
 
 PORTS = [1, 2, 3, 4]
@@ -370,7 +370,7 @@ _ALPHABET = [
 
 def _enum(tier):
   if tier == "thorough":
-    plans = [(0, 5), (1, 6), (2, 6), (3, 5), (4, 5)]
+    plans = [(0, 5), (1, 5), (2, 6), (3, 5), (4, 5)]
   else:
     plans = [(0, 4), (1, 4), (2, 4)]
   for mb, depth in plans:
@@ -430,5 +430,5 @@ def plan(tier):
     ]
   return [
     Enum("histories-exhaustive", lambda: _enum("thorough"), shards=16),
-    Hyp("histories-generated", lambda: _strategy(tier, 60), examples=250000, shards=16),
+    Hyp("histories-generated", lambda: _strategy(tier, 60), examples=160000, shards=16),
   ]
